@@ -12,6 +12,7 @@ import (
 	"os"
 	"path/filepath"
 	"strings"
+	"sync"
 	"testing"
 
 	"github.com/gagliardetto/solana-go"
@@ -244,6 +245,52 @@ func vfC03eval(c *vfC03Case, st map[string]int) error {
 					return fmt.Errorf("GetNodeByCid(%s) [not in the CAR; collides in the cid index] returned %d bytes stored under a different CID", cc, len(data))
 				}
 			}
+			// the same while the object it collides with is being fetched by other requests: readers of the stored
+			// object and of the absent CID run side by side (an answer shared between requests must still be
+			// checked against the CID of each request)
+			if oas, oerr := epochObj.FindOffsetAndSizeFromCid(ctx, cc); oerr == nil && oas != nil {
+				var stored *cargen.Obj
+				for i := range ep.Objects {
+					if ep.Objects[i].Offset == oas.Offset {
+						stored = &ep.Objects[i]
+					}
+				}
+				if stored != nil {
+					st["colliding-cid-concurrent"]++
+					var wg sync.WaitGroup
+					bad := make(chan string, 16)
+					want, _ := mh.Decode(cc.Hash())
+					for g := 0; g < 8; g++ {
+						wg.Add(1)
+						go func(g int) {
+							defer wg.Done()
+							for it := 0; it < 300; it++ {
+								if g%2 == 0 {
+									epochObj.GetNodeByCid(ctx, stored.Cid)
+									continue
+								}
+								data, err := epochObj.GetNodeByCid(ctx, cc)
+								if err == nil {
+									if got := sha256.Sum256(data); string(got[:]) != string(want.Digest) {
+										select {
+										case bad <- fmt.Sprintf("GetNodeByCid(%s) [not in the CAR; collides with %s in the cid index], asked while %s is being fetched by other requests, returned %d bytes stored under that other CID", cc, stored.Cid, stored.Cid, len(data)):
+										default:
+										}
+										return
+									}
+								}
+							}
+						}(g)
+					}
+					wg.Wait()
+					select {
+					case msg := <-bad:
+						cp.Close()
+						return fmt.Errorf("%s", msg)
+					default:
+					}
+				}
+			}
 		}
 		cp.Close()
 		// (e) addresses without history, colliding in the gsfa pubkey index
@@ -334,7 +381,7 @@ func TestVfC03(t *testing.T) {
 	run := vfh.Begin("C03", "absent-keys")
 	defer run.End(t)
 	vfArmWatch(run, "C03")
-	run.Require("skipped-slot", "colliding-slot", "colliding-signature", "colliding-cid", "single-epoch", "multi-epoch", "unloaded-epoch")
+	run.Require("skipped-slot", "colliding-slot", "colliding-signature", "colliding-cid", "colliding-cid-concurrent", "single-epoch", "multi-epoch", "unloaded-epoch")
 	addrKnown := vfh.KnownOpen("C03", "absent-address-colliding-in-pubkey-index")
 	reproduced := 0
 	if addrKnown {
